@@ -192,6 +192,12 @@ func (e *Engine) trIdent(env *SpecEnv, name string) Val {
 		if v, ok := e.localByName(env, name); ok {
 			return v
 		}
+		// the local was renamed since the baseline was taken (same type, the only new local of that type)
+		if nn, ok := env.fc.renames[name]; ok {
+			if v, ok := e.localByName(env, nn); ok {
+				return v
+			}
+		}
 	}
 	if g := e.lookupGhost(env, name); g != nil {
 		hn := "GH_" + g.Pkg.PkgPath + "." + g.Name
